@@ -31,6 +31,8 @@ EXPLANATION = (
 )
 TECHNIQUE += '; def-use check of the screening bound'
 EXPLANATION += " Added to R6: the shell-pair screening bound is computed from a min-reduction over each shell's exponents (the bound must dominate every primitive pair)."
+TECHNIQUE += '; guard enumeration on the shell-pair loops'
+EXPLANATION += ' Added: (R7) a shell-pair block is stored under no other condition than the screening comparison and the one-basis symmetry flag; no continue/break leaves a shell-pair iteration; the screening quantity is assigned once before its test.'
 TRUSTED = ["CPython ast parser", "closed-form Gaussian moment integrals (double factorials)", "uniqueness of the harmonic polynomial with given (l, |m|, y-parity) up to scale"]
 
 TOL = 1e-12
@@ -134,6 +136,12 @@ def check_tf(l, T, report_ok, report_bad):
             report_bad(r, f"tf{l} row {r} ({lab}): " + "; ".join(probs))
         else:
             report_ok(r, f"tf{l} row {r} = {lab}: orthonormal, harmonic, L_z^2={m*m}, parity/sign ok ({sum(1 for x in T[r] if x)} non-zero entries)")
+
+
+def _is_bool_flag(func, name):
+    """A local that is only ever assigned the constants True / False (the one-basis symmetry flag)."""
+    vals = [n.value for n in func.own_nodes() if isinstance(n, ast.Assign) and any(isinstance(t, ast.Name) and t.id == name for t in n.targets)]
+    return bool(vals) and name not in func.params and all(isinstance(v, ast.Constant) and isinstance(v.value, bool) for v in vals)
 
 
 def run(ctx):
@@ -469,8 +477,9 @@ def run(ctx):
                 if isinstance(par, ast.If):
                     t = par.test
                     is_screen = isinstance(t, ast.Compare) and len(t.ops) == 1 and any(isinstance(e, ast.Constant) and isinstance(e.value, float) and 0 < e.value <= 1e-15 for e in [t.left] + t.comparators)
-                    is_ident = isinstance(t, ast.Name) or (isinstance(t, ast.BoolOp) and all(isinstance(v, (ast.Name, ast.Compare)) for v in t.values) and any(isinstance(v, ast.Name) and v.id == "identical" for v in t.values))
-                    if is_screen or (is_ident and "identical" in src_of(t)):
+                    flags = {nm for nm in {x.id for x in ast.walk(t) if isinstance(x, ast.Name)} if _is_bool_flag(co, nm)}
+                    is_ident = (isinstance(t, ast.Name) and t.id in flags) or (isinstance(t, ast.UnaryOp) and isinstance(t.op, ast.Not) and isinstance(t.operand, ast.Name) and t.operand.id in flags)
+                    if is_screen or is_ident:
                         pass
                     else:
                         ctx.violate("R7", f"a shell-pair block is stored only when `{src_of(t)[:70]}`: that is neither the screening test nor the one-basis symmetry test", co, par.test)
